@@ -706,8 +706,26 @@ def sym_bitop(a, b, kind, W=None):
                 W, force = w, True
                 break
     W = W or ENG.W
-    ba, ha, _ = bits_of(at, W, force)
-    bb, hb, _ = bits_of(bt, W, force)
+    # reuse the decompositions the run itself made of these terms (same skolems: nothing to re-derive), and state the
+    # valid fact that digits above the fitted width vanish
+    def decomposition(t):
+        for (tid, w0), ent in ENG.bitcache.items():
+            if tid == t.get_id() and w0 >= W:
+                if force:
+                    ENG.add_axiom(z3.Implies(z3.And(t >= 0, t < (1 << W)), z3.And([ent[1] == 0] + [b == 0 for b in ent[0][W:]])))
+                return ent[0], ent[1], w0
+        bs, hi, _ = bits_of(t, W, force)
+        return bs, hi, W
+    ba, ha, wa = decomposition(at)
+    bb, hb, wb = decomposition(bt)
+    if wa != wb or wa != W:
+        # different widths: work on the common low part W and treat the rest through the (zero) high parts
+        if force:
+            ha = z3.IntVal(0)
+            hb = z3.IntVal(0)
+        else:
+            ba, ha, _ = bits_of(at, W, force)
+            bb, hb, _ = bits_of(bt, W, force)
     acc = None
     for i in reversed(range(W)):
         x, y = ba[i], bb[i]
